@@ -189,7 +189,7 @@ package raft
 
 // the existing backups old.0 .. old.(n-1), n = first gap (or keep)
 //@ func (dbh *dataBackupHelper) listBackups
-//@   property C14
+//@   property C14 C17
 //@   ensures !isnil(res) && (dbh.keep >= 0 ==> len(res) <= dbh.keep)
 //@   ensures forall i int :: 0 <= i && i < len(res) ==> res[i] == bname(dbh, i) && in(res[i], fs)
 //@   ensures len(res) < dbh.keep ==> !in(bname(dbh, len(res)), fs)
@@ -199,7 +199,7 @@ package raft
 
 // "keeps it recoverable as the newest of at most N rotated backups, older backups shifting by one and only the oldest being discarded"
 //@ func (dbh *dataBackupHelper) makeBackup
-//@   property C14
+//@   property C14 C17
 //@   requires dbh.keep >= 1 && namesDistinct(dbh)
 //@   ensures [nothing-to-back-up] !in(dataFolder(dbh), old(fs)) ==> err == nil && fs == old(fs) && fsContent == old(fsContent)
 //@   ensures [newest-is-the-data] in(dataFolder(dbh), old(fs)) && err == nil ==> !in(dataFolder(dbh), fs) && in(bname(dbh, 0), fs) && fsContent[bname(dbh, 0)] == old(fsContent)[dataFolder(dbh)]
